@@ -190,6 +190,8 @@ type ChildReq struct {
 	PrePack string    `json:"pre_pack,omitempty"` // pack this directory first with the same Packer value
 	Reuse   bool      `json:"reuse,omitempty"`    // unpack: the Packer value has already unpacked another slug elsewhere
 	WarmDir string    `json:"warm_dir,omitempty"` // ... into this directory (outside the arena; created and removed by the child)
+	WriteLimit int    `json:"write_limit,omitempty"` // unpack: RLIMIT_FSIZE for the child
+	Interleave string `json:"interleave,omitempty"`  // pack: rule-file text parsed at the first write of the output
 	Build   *BuildReq `json:"build,omitempty"`    // op "build": run the bundle builder (stream prepare)
 }
 
